@@ -221,5 +221,20 @@ func runC08(r *Rand, tier string, o *Out) {
 			}
 		}
 	}
+	// large messages — payloads around 64 KiB and its multiples — cut inside the payload, far from and close to its end
+	for _, sz := range []int{65536, 70000, 131072, 196608} {
+		h, _ := genHeader(r, true)
+		p := r.Bytes(sz)
+		h.Size = uint32(len(p))
+		w := wireOf(h, p)
+		for _, k := range []int{len(w) - 1, len(w) - 1 - r.Intn(4000), len(w) - 65536, len(w) - 65537, 28 + r.Intn(sz)} {
+			c := 1 + r.Intn(k-1)
+			res := o.Do("P", "msg.read 1 d:"+hx(w[:c])+" e:"+hx(w[c:k]), true)
+			o.Count("cut:large-message")
+			if res != "err" && res != "eof" {
+				o.Fail("truncated encoding accepted: message", fmt.Sprintf("msg.read cut at %d of %d => %s", k, len(w), tail2(res, 60)))
+			}
+		}
+	}
 	o.Extra["encodings_cut_at_every_position"] = exhaustive
 }
